@@ -126,6 +126,43 @@ def run(ctx):
             ctx.diverge("loop result %s travelers (many in flight)" % kind, "the rows returned by a mark/jump traversal with many travelers in flight differ from the iterative definition",
                         dict(config=c, run=r, expected_rows=sum(exp.values()), got_rows=sum(got.values()), missing=sorted((exp - got).elements())[:10], extra=sorted((got - exp).elements())[:10]))
     ctx.log("volume runs: %d" % len(vreqs))
+    # ---------------------------------------------------------------- (d) counter loops on the graph family
+    # LoopSem.tla: the documented set/increment/has/jump loop on arbitrary small graphs (self loops, parallel
+    # edges, cycles, dangling edges); the rows must be the walks the iterative definition gives
+    sres = ctx.tlc("jumploop", "LoopSem", "LoopSem.cfg", timeout=900, workers=8, label="counter-loop semantics")
+    sgraphs = sres.msgs["graphs"][0]
+    scases = sres.msgs.get("loop", [])
+    if not scases:
+        raise Inconclusive("LoopSem.tla emitted no cases")
+    sl = [dict(setup=True, graphs=sgraphs, driver="badger")] + [dict(i=i, g=c["g"], prog=c["prog"], only="prod") for i, c in enumerate(scases)]
+    sinp = ctx.write_ndjson("loopsem_in.ndjson", sl)
+    soutp = os.path.join(ctx.scratch, "loopsem_out.ndjson")
+    ctx.harness(["trav", "-j", "8", "-timeout", "60s"], input_path=sinp, output_path=soutp, timeout=3000)
+    souts = {o["i"]: o for o in ctx.read_ndjson(soutp) if "i" in o}
+    if len(souts) != len(scases):
+        raise Inconclusive("trav harness answered %d of %d counter-loop cases" % (len(souts), len(scases)))
+    for i, c in enumerate(scases):
+        o = souts[i]
+        if "died" in o or "harness_err" in o or "wire_err" in o:
+            raise Inconclusive("counter-loop harness failure: %s" % json.dumps({k: o[k] for k in o if k != "trace"})[:300])
+        bad = next((b for b in ("crash", "hang") if b in o), None)
+        if bad:
+            ctx.diverge("loop %s: %s" % (bad, o[bad] if bad == "crash" else "counter loop does not finish"),
+                        "the documented counter loop %s" % ("never terminates" if bad == "hang" else "crashes the process"),
+                        dict(case={k: c[k] for k in ("g", "d", "variant", "prog")}, trace=(o.get("trace") or "")[:2500]))
+            continue
+        p = o.get("prod") or {}
+        if p.get("err") or p.get("panic"):
+            ctx.diverge("loop counter program rejected or panicked", str(p.get("err") or p.get("panic"))[:120], dict(case=c, outcome=p))
+            continue
+        exp = Counter({k: v for k, v in (c["expect"].items() if isinstance(c["expect"], dict) else []) if v})
+        got = Counter(r.get("gid") for r in p.get("rows", []))
+        if exp != got:
+            kind = "lost" if (exp - got) and not (got - exp) else ("duplicated" if (got - exp) and not (exp - got) else "wrong")
+            ctx.diverge("loop result %s travelers (counter loop, variant %s)" % (kind, c["variant"]),
+                        "the rows of the documented set/increment/jump loop differ from the walks of the iterative definition",
+                        dict(case={k: c[k] for k in ("g", "d", "variant", "prog")}, graph=sgraphs[c["g"] - 1], expected=dict(exp), got=dict(got)))
+    ctx.log("counter-loop cases: %d" % len(scases))
     # ---------------------------------------------------------------- (b)+(c) validation
     ntr = [0]
     from concurrent.futures import ThreadPoolExecutor
